@@ -269,6 +269,38 @@ def judge_wall(lines):
     return bad
 
 
+def judge_http(lines):
+    """What the CALLER of a direct invoke received over a real HTTP round trip: the bytes are a
+    prefix of the response, cut one byte past the limit exactly when it is longer than the limit,
+    and the End-Of-Response trailer (as delivered by net/http, i.e. announced AND written) says
+    Complete / Oversized / Truncated accordingly."""
+    bad = []
+    for ln in lines:
+        if not ln.startswith("# http "):
+            continue
+        ws = ln[7:].split()
+        res = ws[ws.index("->") + 1:]
+        if res and res[0].startswith("clienterr="):
+            bad.append(f"the HTTP round trip failed ({ln[2:]})"); continue
+        mx = bytes.fromhex(kv(ws, "max")).decode() if kv(ws, "max") != "-" else ""
+        limit = int(kv(ws, "defaultlimit")) if mx == "" else int(mx)
+        paylen, fail = int(kv(ws, "paylen")), kv(ws, "fail") == "1"
+        n, eor = int(kv(res, "n")), kv(res, "eor")
+        if kv(res, "st") != "200" or kv(res, "prefix") != "1":
+            bad.append(f"caller did not receive a prefix of the response bytes with status 200 ({ln[2:]})"); continue
+        if limit >= 0 and paylen > limit:
+            want, wn = "Oversized", limit + 1
+        elif fail:
+            want, wn = "Truncated", paylen
+        else:
+            want, wn = "Complete", paylen
+        if eor != want:
+            bad.append(f"response of {paylen} bytes (limit {limit if limit >= 0 else 'none'}, copy error: {fail}) must be classified {want} in the End-Of-Response trailer, the caller received trailer {eor!r} ({ln[2:]})")
+        elif n != wn:
+            bad.append(f"caller received {n} bytes, want {wn} ({ln[2:]})")
+    return bad
+
+
 # ---------------------------------------------------------------- running
 
 FAMILIES = {
@@ -279,6 +311,7 @@ FAMILIES = {
     "bucket": ("bucket", "bucket", "C17_rate_bound, C17_rate_window, C17_progress"),
     "shape": ("shape", "dishape", "C17_rate_window, C17_progress, C17_copy_terminates, C17_chunks"),
     "wall": ("wall", None, "C17_rate_time (one-sided, wall clock)"),
+    "http": ("http", None, "C17_classify (as received by a real HTTP client; model-free)"),
 }
 
 
@@ -292,6 +325,8 @@ def judge_case(fam, lines, consts, table):
         return judge_bucket(lines, init)
     if fam == "shape":
         return judge_shape(lines, init)
+    if fam == "http":
+        return judge_http(lines)
     return judge_wall(lines)
 
 
@@ -360,7 +395,7 @@ def report(ctx, fam, cid, lines, consts, mism_line=None):
             ops = ops[:int(m.group(1))]
     if fam in ("recv", "bucket", "shape", "send") and len(ops) > 1:
         ops = shrink(ctx, fam, init_line, ops, consts, orig_bad)
-    flines, o = rerun(ctx, fam, init_line, ops, "final") if fam != "wall" else (lines, None)
+    flines, o = rerun(ctx, fam, init_line, ops, "final") if fam not in ("wall", "http") else (lines, None)
     if flines is None:
         flines = lines
     complaints = judge_case(fam, flines, consts, {})
@@ -379,6 +414,9 @@ def report(ctx, fam, cid, lines, consts, mism_line=None):
     if fam == "wall":
         wl = next((l for l in flines if l.startswith("# wall ")), "").split()
         sig = f"wall:rate={kv(wl, 'rate')} burst={kv(wl, 'burst')} paylen={kv(wl, 'paylen')}"
+    if fam == "http":
+        wl = next((l for l in flines if l.startswith("# http ")), "").split()
+        sig = f"http:mode={kv(wl, 'mode')} max={kv(wl, 'max')} paylen={kv(wl, 'paylen')} fail={kv(wl, 'fail')}"
     if len(sig) > 400:
         import hashlib
         sig = sig[:360] + "#" + hashlib.sha1(sig.encode()).hexdigest()[:12]
@@ -393,9 +431,9 @@ def plan(tier, seed):
     """(family, workers, cases each, extra args)"""
     if tier == "thorough":
         return [("recv", 8, 30000, []), ("send", 16, 1100, []), ("sendbig", 2, 12, ["-big"]), ("bucket", 4, 30000, []),
-                ("shape", 16, 500, []), ("wall", 8, 5, [])]
+                ("shape", 16, 500, []), ("wall", 8, 5, []), ("http", 4, 400, [])]
     return [("recv", 4, 4000, []), ("send", 8, 180, []), ("sendbig", 1, 5, ["-big"]), ("bucket", 2, 4000, []),
-            ("shape", 8, 60, []), ("wall", 3, 2, [])]
+            ("shape", 8, 60, []), ("wall", 3, 2, []), ("http", 2, 60, [])]
 
 
 def check(ctx):
@@ -416,8 +454,8 @@ def check(ctx):
         return ctx.finish()
     consts = gen_consts()
     ok, out = ctx.lean_obligations("C17")
-    if not ok:
-        return ctx.finish(level="proof", rule="obligations failed; no correspondence run")
+    if not ok and not ctx.oracle_available():
+        return ctx.finish(level="proof", rule="obligations failed and the executable model does not build; no correspondence run")
     # corpus
     cmds, meta = [], []
     for fam, workers, n, extra in plan(ctx.tier, ctx.seed):
